@@ -543,10 +543,10 @@ Proof.
 Qed.
 
 (* well-shaped markers: every conjunction / disjunction, at any depth, has pairwise distinct children none of which is a compound of the same kind *)
-Definition wf (m : marker) : bool := W (fun _ => true) cmW cuW m.
-Lemma W_wf qn m : W qn cmW cuW m = true -> wf m = true.
+Definition shaped (m : marker) : bool := W (fun _ => true) cmW cuW m.
+Lemma W_shaped qn m : W qn cmW cuW m = true -> shaped m = true.
 Proof.
-  unfold wf. induction m as [| |a|n vs|n vs|l IH|l IH] using marker_indW; intros H; try reflexivity.
+  unfold shaped. induction m as [| |a|n vs|n vs|l IH|l IH] using marker_indW; intros H; try reflexivity.
   - rewrite W_multi in *. apply andb_prop in H as [H1 H2]. rewrite H1. cbn [andb]. apply forallb_forall. intros x Hx.
     rewrite Forall_forall in IH. apply (IH x Hx). rewrite forallb_forall in H2. exact (H2 x Hx).
   - rewrite W_union in *. apply andb_prop in H as [H1 H2]. rewrite H1. cbn [andb]. apply forallb_forall. intros x Hx.
@@ -563,26 +563,26 @@ Section ShapeOps.
   Hypothesis perm_perm : forall l, Permutation (perm l) l.
   Let qt : str -> bool := fun _ => true.
 
-  Lemma leaf_wf r : is_multi r = false -> is_union r = false -> wf r = true.
+  Lemma leaf_shaped r : is_multi r = false -> is_union r = false -> shaped r = true.
   Proof. destruct r; try reflexivity; discriminate. Qed.
-  Lemma vmerge_wf k a b r : vmerge k a b = Some r -> qt (a_name a) = true -> qt (a_name b) = true -> W qt cmW cuW r = true.
-  Proof. intros E _ _. destruct (vmerge_leaf _ _ _ _ E) as [H1 H2]. exact (leaf_wf r H1 H2). Qed.
+  Lemma vmerge_shaped k a b r : vmerge k a b = Some r -> qt (a_name a) = true -> qt (a_name b) = true -> W qt cmW cuW r = true.
+  Proof. intros E _ _. destruct (vmerge_leaf _ _ _ _ E) as [H1 H2]. exact (leaf_shaped r H1 H2). Qed.
 
-  Lemma level_wf n : inv_callees qt cmW cuW (level vmerge vcontains perm n).
-  Proof. exact (level_inv qt cmW cuW (cm_mk_W qt) (cu_mk_W qt) vmerge vcontains perm vmerge_wf perm_perm n). Qed.
+  Lemma level_shaped n : inv_callees qt cmW cuW (level vmerge vcontains perm n).
+  Proof. exact (level_inv qt cmW cuW (cm_mk_W qt) (cu_mk_W qt) vmerge vcontains perm vmerge_shaped perm_perm n). Qed.
 
-  Theorem mand_wf fuel a b r : mand vmerge vcontains perm fuel a b = Ret r -> wf a = true -> wf b = true -> wf r = true.
-  Proof. destruct (level_wf fuel) as (H & _). exact (H a b r). Qed.
-  Theorem mor_wf fuel a b r : mor vmerge vcontains perm fuel a b = Ret r -> wf a = true -> wf b = true -> wf r = true.
-  Proof. destruct (level_wf fuel) as (_ & H & _). exact (H a b r). Qed.
-  Theorem multi_of_wf fuel l r : multi_of vmerge vcontains perm fuel l = Ret r -> forallb wf l = true -> wf r = true.
-  Proof. destruct (level_wf fuel) as (_ & _ & H & _). exact (H l r). Qed.
-  Theorem union_of_wf fuel l r : union_of vmerge vcontains perm fuel l = Ret r -> forallb wf l = true -> wf r = true.
-  Proof. destruct (level_wf fuel) as (_ & _ & _ & H & _). exact (H l r). Qed.
-  Theorem monly_wf names fuel m r : monly vmerge vcontains perm fuel names m = Ret r -> wf r = true.
-  Proof. exact (monly_inv vmerge vcontains perm cmW cuW qt (cm_mk_W qt) (cu_mk_W qt) vmerge_wf perm_perm names fuel (fun _ _ => eq_refl) m r). Qed.
-  Theorem mexclude_wf name fuel m r : mexclude vmerge vcontains perm fuel name m = Ret r -> wf r = true.
-  Proof. exact (mexclude_inv vmerge vcontains perm cmW cuW qt (cm_mk_W qt) (cu_mk_W qt) vmerge_wf perm_perm name fuel (fun _ _ => eq_refl) m r). Qed.
+  Theorem mand_shaped fuel a b r : mand vmerge vcontains perm fuel a b = Ret r -> shaped a = true -> shaped b = true -> shaped r = true.
+  Proof. destruct (level_shaped fuel) as (H & _). exact (H a b r). Qed.
+  Theorem mor_shaped fuel a b r : mor vmerge vcontains perm fuel a b = Ret r -> shaped a = true -> shaped b = true -> shaped r = true.
+  Proof. destruct (level_shaped fuel) as (_ & H & _). exact (H a b r). Qed.
+  Theorem multi_of_shaped fuel l r : multi_of vmerge vcontains perm fuel l = Ret r -> forallb shaped l = true -> shaped r = true.
+  Proof. destruct (level_shaped fuel) as (_ & _ & H & _). exact (H l r). Qed.
+  Theorem union_of_shaped fuel l r : union_of vmerge vcontains perm fuel l = Ret r -> forallb shaped l = true -> shaped r = true.
+  Proof. destruct (level_shaped fuel) as (_ & _ & _ & H & _). exact (H l r). Qed.
+  Theorem monly_shaped names fuel m r : monly vmerge vcontains perm fuel names m = Ret r -> shaped r = true.
+  Proof. exact (monly_inv vmerge vcontains perm cmW cuW qt (cm_mk_W qt) (cu_mk_W qt) vmerge_shaped perm_perm names fuel (fun _ _ => eq_refl) m r). Qed.
+  Theorem mexclude_shaped name fuel m r : mexclude vmerge vcontains perm fuel name m = Ret r -> shaped r = true.
+  Proof. exact (mexclude_inv vmerge vcontains perm cmW cuW qt (cm_mk_W qt) (cu_mk_W qt) vmerge_shaped perm_perm name fuel (fun _ _ => eq_refl) m r). Qed.
 
   (* the markers reachable from atoms through the public operations *)
   Inductive reachable : marker -> Prop :=
@@ -596,28 +596,28 @@ Section ShapeOps.
   | r_only fuel names m r : reachable m -> monly vmerge vcontains perm fuel names m = Ret r -> reachable r
   | r_exclude fuel name m r : reachable m -> mexclude vmerge vcontains perm fuel name m = Ret r -> reachable r.
 
-  Theorem reachable_wf : forall m, reachable m -> wf m = true.
+  Theorem reachable_shaped : forall m, reachable m -> shaped m = true.
   Proof.
     fix IH 2. intros m [| |a|fuel a b r Ha Hb E|fuel a b r Ha Hb E|fuel l r Hl E|fuel l r Hl E|fuel names m0 r Hm E|fuel name m0 r Hm E]; try reflexivity.
-    - exact (mand_wf fuel a b r E (IH a Ha) (IH b Hb)).
-    - exact (mor_wf fuel a b r E (IH a Ha) (IH b Hb)).
-    - apply (multi_of_wf fuel l r E). apply forallb_forall. intros x Hx. exact (IH x (Hl x Hx)).
-    - apply (union_of_wf fuel l r E). apply forallb_forall. intros x Hx. exact (IH x (Hl x Hx)).
-    - exact (monly_wf names fuel m0 r E).
-    - exact (mexclude_wf name fuel m0 r E).
+    - exact (mand_shaped fuel a b r E (IH a Ha) (IH b Hb)).
+    - exact (mor_shaped fuel a b r E (IH a Ha) (IH b Hb)).
+    - apply (multi_of_shaped fuel l r E). apply forallb_forall. intros x Hx. exact (IH x (Hl x Hx)).
+    - apply (union_of_shaped fuel l r E). apply forallb_forall. intros x Hx. exact (IH x (Hl x Hx)).
+    - exact (monly_shaped names fuel m0 r E).
+    - exact (mexclude_shaped name fuel m0 r E).
   Qed.
 End ShapeOps.
 
-(* what wf says, unfolded one level *)
-Lemma wf_multi l : wf (MMulti l) = true ->
-  dist l /\ forallb (fun x => negb (is_multi x)) l = true /\ forallb wf l = true.
+(* what shaped says, unfolded one level *)
+Lemma shaped_multi l : shaped (MMulti l) = true ->
+  dist l /\ forallb (fun x => negb (is_multi x)) l = true /\ forallb shaped l = true.
 Proof.
-  unfold wf. rewrite W_multi. intros H. apply andb_prop in H as [H1 H2]. unfold cmW in H1. apply andb_prop in H1 as [D N].
+  unfold shaped. rewrite W_multi. intros H. apply andb_prop in H as [H1 H2]. unfold cmW in H1. apply andb_prop in H1 as [D N].
   split; [exact (distb_dist l D)|]. split; assumption.
 Qed.
-Lemma wf_union l : wf (MUnion l) = true ->
-  dist l /\ forallb (fun x => negb (is_union x)) l = true /\ forallb wf l = true.
+Lemma shaped_union l : shaped (MUnion l) = true ->
+  dist l /\ forallb (fun x => negb (is_union x)) l = true /\ forallb shaped l = true.
 Proof.
-  unfold wf. rewrite W_union. intros H. apply andb_prop in H as [H1 H2]. unfold cuW in H1. apply andb_prop in H1 as [D N].
+  unfold shaped. rewrite W_union. intros H. apply andb_prop in H as [H1 H2]. unfold cuW in H1. apply andb_prop in H1 as [D N].
   split; [exact (distb_dist l D)|]. split; assumption.
 Qed.
